@@ -47,6 +47,9 @@ def _range(it, f, args, kw, node):
     if all(isinstance(a, int) for a in args):
         return range(*args)
     vals = []
+    if any(isinstance(a, (Opaque, NDArr)) for a in args):
+        from .cx import _Stop
+        raise _Stop('loop over a range with opaque bounds')
     for a in args:
         if is_sym(a):
             s = z3.simplify(a)
@@ -218,6 +221,10 @@ def _setattr(it, f, args, kw, node):
 @reg('builtins.hasattr')
 def _hasattr(it, f, args, kw, node):
     o, name = args
+    if isinstance(o, (tuple, list, dict, str, int, float, set)) and not is_sym(o):
+        return hasattr(o, name)
+    if is_sym(o):
+        return hasattr(0.0, name)
     if isinstance(o, Obj):
         return name in o.fields or it.find_method(o, name) is not None
     return it.ctx.branch(it.ctx.fresh_bool('hasattr'), 'hasattr')
@@ -587,6 +594,8 @@ def _pw(it, f, args, kw, node):
         import math
         return {'sqrt': math.sqrt, 'abs': abs, 'conj': lambda x: x}[[k for k in PW if k in f.name][0] if any(k in f.name for k in PW) else 'abs'](v)
     if is_sym(v):
+        if 'abs' in f.name:
+            return z3.If(v >= 0, v, -v)        # exact on real scalars
         v2 = z3.ToReal(v) if z3.is_int(v) else v
         return fn(v2)
     return Opaque(f.name)
